@@ -35,6 +35,15 @@ def h_surface_views(cx, sp):
     o2.ctrlpts2d = [[list(p) for p in row] for row in g]
     cx.eq('ctrlpts2d_setter.sizes', shapes.sizes(o2), [su, sv])
     cx.eq('ctrlpts2d_setter.net', shapes.net(o2), net)
+    # the grid view follows a later assignment of the flat list (net already exists)
+    o4 = shapes.clone(obj)
+    Q = cx.points('Q', su * sv, sp['dim'])
+    o4.ctrlpts = [list(q) for q in Q]
+    g4 = o4.ctrlpts2d
+    for i in range(su):
+        for j in range(sv):
+            exp = ([x * W[j + sv * i] for x in Q[j + sv * i]] + [W[j + sv * i]]) if W else list(Q[j + sv * i])
+            cx.eq('ctrlpts2d_after_assignment[%d][%d]' % (i, j), list(g4[i][j]), exp)
     # managers
     CP = geo.M('control_points')
     m = CP.SurfaceManager(su, sv)
@@ -117,6 +126,30 @@ def h_transpose(cx, sp, via):
             if w0 is not None:
                 cx.eq('weights[%d][%d]' % (i, j), t.weights[i + su * j], w0[j + sv * i])
                 cx.eq('ctrlpts2d[%d][%d]' % (i, j), list(g1[j][i]), [x * w0[j + sv * i] for x in plain0[j + sv * i]] + [w0[j + sv * i]])
+
+
+def h_transpose_container(cx, shapes_list, inplace):
+    """operations.transpose on a container whose members have the same number of control points but different net shapes"""
+    ops = geo.M('operations')
+    multi = geo.M('multi')
+    objs = []
+    for i, (degs, ms) in enumerate(shapes_list):
+        sp = spec('surface', degs, ms, rational=(i % 2 == 1))
+        sizes = [len(k) - d - 1 for k, d in zip(sp['kvs'], sp['degs'])]
+        P = cx.points('P%d_' % i, sizes[0] * sizes[1], 3)
+        W = cx.reals('w%d_' % i, sizes[0] * sizes[1], positive=True) if sp['rational'] else None
+        objs.append(geo.make_surface(cx, degs[0], degs[1], cx.consts(sp['kvs'][0]), cx.consts(sp['kvs'][1]), sizes[0], sizes[1], P, W))
+    refs = [shapes.clone(o) for o in objs]
+    mc = multi.SurfaceContainer()
+    for o in objs:
+        mc.add(o)
+    res = ops.transpose(mc, inplace=inplace)
+    outs = [g for g in res]
+    cx.check('count', len(outs) == len(objs))
+    for i, (t, ref) in enumerate(zip(outs, refs)):
+        cx.eq('elem%d.sizes_swapped' % i, shapes.sizes(t), list(reversed(shapes.sizes(ref))))
+        prm = shapes.sym_params(cx, ref, prefix='e%d' % i)
+        cx.eq('elem%d.T(v,u)==S(u,v)' % i, t.evaluate_single((prm[1], prm[0])), ref.evaluate_single((prm[0], prm[1])))
 
 
 def h_extract_construct_surface(cx, sp, direction):
@@ -251,6 +284,9 @@ def instances(tier):
             out.append(inst('%s sweep' % spec_name(sp), h_sweep, timeout=1800, sp=sp))
     for su, sv in ((2, 3), (3, 2), (3, 4), (1, 3)):
         out.append(inst('flips %dx%d' % (su, sv), h_flips, su=su, sv=sv))
+    same_count = [((1, 2), ((1,), (1,))), ((1, 1), ((), (1, 1, 1, 1))), ((2, 1), ((1,), (1,)))]       # 3x4, 2x6, 4x3: all 12 points
+    for inplace in (False, True):
+        out.append(inst('transpose container 3x4+2x6+4x3 inplace=%s' % inplace, h_transpose_container, timeout=1800, shapes_list=same_count, inplace=inplace))
     vols = [((1, 2, 1), ((), (), (1, 1))), ((2, 1, 1), ((), (), ()))]      # 2x3x4, 3x2x2
     if not quick:
         vols += [((1, 1, 2), ((), (1, 1), ())), ((1, 2, 2), ((1, 1), (), ())), ((2, 1, 3), ((), (1,), (1,))), ((1, 1, 1), ((1, 1, 1), (1,), ()))]
